@@ -171,6 +171,9 @@ class SqlImpl(TableImpl):
                 df = pl.read_database(
                     sel.compile(engine, compile_kwargs={"literal_binds": True}),
                     connection=conn,
+                    # a column may start with more nulls than polars' default inference
+                    # window (100 rows)
+                    infer_schema_length=None,
                     schema_overrides={
                         # databases without a boolean type (SQLite) deliver 0 / 1 for
                         # boolean expressions; the static type decides
